@@ -26,6 +26,23 @@ struct tiny_buf : public std::streambuf {
 };
 
 
+// a streamable value that writes its text in several pieces (as booster::locale::format, user operator<< or template blocks do)
+struct pieces { std::vector<std::string> v; };
+static std::ostream &operator<<(std::ostream &o,pieces const &p)
+{
+	for(size_t i=0;i<p.v.size();i++) {
+		if(p.v[i].size()==1) o.put(p.v[i][0]); else o.write(p.v[i].data(),p.v[i].size());
+	}
+	return o;
+}
+static pieces cut(std::string const &s,std::string const &cuts)   // cuts: comma separated piece lengths; rest = last piece
+{
+	pieces p; size_t pos=0; std::stringstream ss(cuts); std::string t;
+	while(std::getline(ss,t,',')) { size_t n=strtoul(t.c_str(),0,10); n=std::min(n,s.size()-pos); p.v.push_back(s.substr(pos,n)); pos+=n; }
+	p.v.push_back(s.substr(pos));
+	return p;
+}
+
 // ---- form widget rendering: render a widget with `val` in the slot `kind`, return the rendered HTML
 static std::string render_widget(std::string const &kind,std::string const &val,int mode)
 {
@@ -130,6 +147,17 @@ int main()
 			bool canary=true; for(int i=cap;i<cap+8;i++) if(buf[i]!=0xA5) canary=false;
 			std::string r(reinterpret_cast<char*>(&buf[0]),e-&buf[0]);
 			if(!canary || (ds>=0 && (e-&buf[0])!=ds)) out<<"bdecp OVERRUN "<<hex(r)<<" ds="<<ds; else out<<"bdecp "<<hex(r);
+		}
+		else if(v.size()==4 && v[0]=="pcs") {
+			// filters applied to a value that is streamed in pieces: op in {esc,uenc,benc}
+			std::string s=unhex(v[3]); pieces p=cut(s,v[2]);
+			std::ostringstream o1; tiny_buf b2; std::ostream o2(&b2);
+			if(v[1]=="esc") { o1<<cppcms::filters::escape(p); o2<<cppcms::filters::escape(p); }
+			else if(v[1]=="uenc") { o1<<cppcms::filters::urlencode(p); o2<<cppcms::filters::urlencode(p); }
+			else { o1<<cppcms::filters::base64_urlencode(p); o2<<cppcms::filters::base64_urlencode(p); }
+			o2.flush();
+			if(o1.str()!=b2.data) out<<"pcs PATHS-DIFFER "<<hex(o1.str())<<" "<<hex(b2.data);
+			else out<<"pcs "<<hex(o1.str());
 		}
 		else if(v.size()==4 && v[0]=="form") {
 			// the widget rendered with the payload must equal the widget rendered with a harmless placeholder, with the
